@@ -40,18 +40,26 @@ func (k actorKind) String() string {
 	return [...]string{"reader", "writer-commit", "writer-rollback", "closer"}[k]
 }
 
+// SchedActor is one cooperative actor.
+type SchedActor = schedActor
+
 type schedActor struct {
-	id    int
-	kind  actorKind
-	reps  int
-	gid   int64
-	point string // point the actor is parked at
-	arg   int
-	done  bool
-	grant chan struct{}
+	Custom func(sr *SchedRun, a *SchedActor) // custom script (queue layer actors)
+	id     int
+	kind   actorKind
+	reps   int
+	gid    int64
+	point  string // point the actor is parked at
+	arg    int
+	done   bool
+	grant  chan struct{}
 }
 
+// SchedRun is one execution of a schedule.
+type SchedRun = schedRun
+
 type schedRun struct {
+	User   interface{} // state of custom actor sets
 	f      *txfile.File
 	disk   *simdisk.Disk
 	actors []*schedActor
@@ -168,6 +176,10 @@ func (sr *schedRun) actorMain(a *schedActor) {
 		sr.arrive <- a
 	}()
 	sr.yield(a, "start", 0)
+	if a.Custom != nil {
+		a.Custom(sr, a)
+		return
+	}
 	for rep := 0; rep < a.reps; rep++ {
 		switch a.kind {
 		case aReader:
@@ -251,8 +263,15 @@ type schedOutcome struct {
 // runSchedule executes one schedule: follow prefix, then the default policy
 // (stay with the running actor if enabled, else lowest enabled id).
 func runSchedule(kinds []actorKind, reps int, prefix []int) schedOutcome {
+	return runScheduleGeneric(kinds, reps, prefix, nil)
+}
+
+func runScheduleGeneric(kinds []actorKind, reps int, prefix []int, cs *CustomSet) schedOutcome {
 	sr := &schedRun{arrive: make(chan *schedActor)}
 	cfg := Config{PageSize: 1024, DiskCap: 1 << 20}
+	if cs != nil {
+		cfg = cs.Cfg
+	}
 	sr.disk = simdisk.New("simdisk", cfg.DiskCap)
 	sr.disk.SetRecording(false)
 	var out schedOutcome
@@ -262,13 +281,18 @@ func runSchedule(kinds []actorKind, reps int, prefix []int) schedOutcome {
 		return out
 	}
 	sr.f = f
-	// initial state: root page with version 0
-	tx, _ := f.Begin()
-	pg, _ := tx.Alloc()
-	pg.SetBytes(Stamp(pg.ID(), 0, 1024))
-	tx.SetRoot(pg.ID())
-	if err := tx.Commit(); err != nil {
-		out.rule, out.msg = "commit-error", err.Error()
+	if cs == nil {
+		// initial state: root page with version 0
+		tx, _ := f.Begin()
+		pg, _ := tx.Alloc()
+		pg.SetBytes(Stamp(pg.ID(), 0, 1024))
+		tx.SetRoot(pg.ID())
+		if err := tx.Commit(); err != nil {
+			out.rule, out.msg = "commit-error", err.Error()
+			return out
+		}
+	} else if err := cs.Setup(sr); err != nil {
+		out.rule, out.msg = "setup-failed", err.Error()
 		return out
 	}
 	sr.commits = 0
@@ -279,6 +303,11 @@ func runSchedule(kinds []actorKind, reps int, prefix []int) schedOutcome {
 			r = 1
 		}
 		sr.actors = append(sr.actors, &schedActor{id: i, kind: k, reps: r, grant: make(chan struct{})})
+	}
+	if cs != nil {
+		for i, fn := range cs.Actors {
+			sr.actors = append(sr.actors, &schedActor{id: i, kind: aWriterCommit, reps: 1, grant: make(chan struct{}), Custom: fn})
+		}
 	}
 	for _, a := range sr.actors {
 		go sr.actorMain(a)
@@ -343,6 +372,9 @@ func runSchedule(kinds []actorKind, reps int, prefix []int) schedOutcome {
 			sr.fail("harness", "schedule does not terminate")
 			break
 		}
+	}
+	if sr.viol == "" && cs != nil && cs.Final != nil {
+		cs.Final(sr)
 	}
 	if sr.viol == "" {
 		if !sr.closed {
@@ -453,4 +485,70 @@ func runSchedCase(c *core.Case) *core.Result {
 		res.Sample = map[string]interface{}{"case": c.Idx, "actors": names, "reps": reps, "schedules": n, "one_schedule": one}
 	}
 	return res
+}
+
+// Yield parks a custom actor at a named point.
+func (sr *schedRun) Yield(a *schedActor, point string) { sr.yield(a, point, 0) }
+
+// Fail records a violation of the running schedule.
+func (sr *schedRun) Fail(rule, format string, args ...interface{}) { sr.fail(rule, format, args...) }
+
+// File returns the file of the run.
+func (sr *schedRun) File() *txfile.File { return sr.f }
+
+// Closing reports whether File.Close has been called.
+func (sr *schedRun) Closing() bool { return sr.closing }
+
+// ID returns the actor id.
+func (a *schedActor) ID() int { return a.id }
+
+// CustomSet describes a custom actor set for the scheduler.
+type CustomSet struct {
+	Name   string
+	Cfg    Config
+	Setup  func(sr *SchedRun) error // after the file has been opened
+	Actors []func(sr *SchedRun, a *SchedActor)
+	Final  func(sr *SchedRun) // after all actors finished (file still open)
+}
+
+// ExploreCustom enumerates schedules of a custom actor set.
+func ExploreCustom(cs CustomSet, maxPreempt, budget int, seen map[string]bool) (executed int, rule, msg, trace string) {
+	type node struct {
+		prefix   []int
+		preempts int
+	}
+	stack := []node{{}}
+	for len(stack) > 0 && executed < budget {
+		n := stack[len(stack)-1]
+		stack = stack[:len(stack)-1]
+		out := runScheduleGeneric(nil, 0, n.prefix, &cs)
+		executed++
+		seen[out.trace] = true
+		if out.rule != "" {
+			return executed, out.rule, out.msg, out.trace
+		}
+		for d := len(out.choices) - 1; d >= len(n.prefix); d-- {
+			prev := -1
+			if d > 0 {
+				prev = out.choices[d-1]
+			}
+			for _, alt := range out.enabledN[d] {
+				if alt == out.choices[d] {
+					continue
+				}
+				cost := 0
+				for _, e := range out.enabledN[d] {
+					if e == prev {
+						cost = 1
+					}
+				}
+				if n.preempts+cost > maxPreempt {
+					continue
+				}
+				np := append(append([]int{}, out.choices[:d]...), alt)
+				stack = append(stack, node{np, n.preempts + cost})
+			}
+		}
+	}
+	return executed, "", "", ""
 }
